@@ -19,11 +19,16 @@ def _texture(n, seed):
     return Rotation.random(n, random_state=seed).as_matrix(), np.full(n, 1.0 / n)
 
 
-def replay_kernel_entry(core, e, chk):
+KFLOWS = ("gen3d", "zero", "rot", "pure_xy")   # incl. flows that resolve no shear on any grain
+
+
+def replay_kernel_entry(core, e, chk, flow="gen3d"):
     r, p, f = e["r"], e["p"], e["f"]
     n = 3
     o, fr = _texture(n, 11)
-    L = layerb.FLOWS["gen3d"]
+    if flow == "pure_xy":   # axis-aligned grains in an axis-aligned pure shear: every slip invariant vanishes
+        o = np.repeat(np.eye(3)[None], n, axis=0)
+    L = layerb.FLOWS[flow]
     D = (L + L.T) / 2
     try:
         do, df = core.derivatives(r, p, f, n, o, fr, D, L, np.zeros((3, 3)), 1.5, 3.5, 5.0, 125.0, 1.0)
@@ -33,7 +38,7 @@ def replay_kernel_entry(core, e, chk):
     cls = e["cls"]
     sig = None
     if cls == "reject" and out == "returned":
-        sig = dict(level="kernel", clause="unsupported-returned-numbers", regime=r, phase=p, fabric=f)
+        sig = dict(level="kernel", clause="unsupported-returned-numbers", regime=r, phase=p, fabric=f, flow=flow)
     elif cls in ("null", "diffusion", "texture") and out != "returned":
         sig = dict(level="kernel", clause="accepted-entry-raised", regime=r, phase=p, fabric=f, exc=out)
     elif cls == "null" and out == "returned":
@@ -46,12 +51,12 @@ def replay_kernel_entry(core, e, chk):
     return out
 
 
-def replay_mineral_entry(pd, e, chk):
+def replay_mineral_entry(pd, e, chk, flow="ss_xz"):
     r, p, f, asm, cb = e["r"], e["p"], e["f"], e["asm"], e["cb"]
     m = pd.Mineral(phase=p, fabric=f, regime=r, n_grains=3, seed=5)
     par = dict(M=125, chi=3, asm=asm, phiOl=7, x=[5, 0])
     params = layerb.make_params(par)
-    L = layerb.FLOWS["ss_xz"]
+    L = layerb.FLOWS[flow]
     o0, f0 = [layerb.sha(x) for x in m.orientations], [layerb.sha(x) for x in m.fractions]
     try:
         m.update_orientations(params, np.eye(3), lambda t, x: L, (0.0, 0.1, lambda t: np.zeros(3)), get_regime=None if cb == layerb.NOCB else (lambda t, x: cb))
@@ -67,7 +72,7 @@ def replay_mineral_entry(pd, e, chk):
     elif out == "None" and (o1[:-1] != o0 or f1[:-1] != f0 or len(o1) != 2):
         sig = dict(level="mineral", clause="accepted-update-not-append-only", cls=cls)
     elif cls == "reject" and out == "None":
-        sig = dict(level="mineral", clause="unsupported-accepted", regime=eff, phase=p, fabric=f)
+        sig = dict(level="mineral", clause="unsupported-accepted", regime=eff, phase=p, fabric=f, flow=flow)
     elif cls in ("null", "diffusion", "texture") and out != "None":
         sig = dict(level="mineral", clause="accepted-entry-raised", cls=cls, regime=eff, phase=p, fabric=f, exc=out)
     elif cls == "null" and out == "None":
@@ -107,13 +112,15 @@ def main(tier):
         minr = keep + extra
     outs = {}
     for e in kern:
-        out = replay_kernel_entry(core, e, chk)
-        chk.count(("k", e["r"], e["p"], e["f"]))
-        outs[e["cls"] + "/" + out.split(":")[0]] = outs.get(e["cls"] + "/" + out.split(":")[0], 0) + 1
+        for flow in KFLOWS:
+            out = replay_kernel_entry(core, e, chk, flow)
+            chk.count(("k", e["r"], e["p"], e["f"], flow))
+            outs[e["cls"] + "/" + out.split(":")[0]] = outs.get(e["cls"] + "/" + out.split(":")[0], 0) + 1
     chk.sample(dict(kind="kernel-table-entry", entry=kern[37]))
-    for e in minr:
-        out = replay_mineral_entry(pd, e, chk)
-        chk.count(("m", e["r"], e["p"], e["f"], tuple(e["asm"]), e["cb"]))
+    for i, e in enumerate(minr):
+        flow = ("ss_xz", "zero", "rot")[i % 3]   # the table class does not depend on the flow
+        out = replay_mineral_entry(pd, e, chk, flow)
+        chk.count(("m", e["r"], e["p"], e["f"], tuple(e["asm"]), e["cb"], flow))
         k = "M:" + e["cls"] + "/" + out
         outs[k] = outs.get(k, 0) + 1
     chk.sample(dict(kind="mineral-table-entry", entry=minr[11]))
